@@ -59,12 +59,25 @@ ChunkBodies == { <<La("ok"), E>>, <<Ch("ext"), Ch("ok"), La("ext"), E>>,
             \cup { <<Ch("ok"), Ch(f), La("ok"), E, S>> : f \in {"badsize", "nocrlf", "badterm", "barelf"} }
 CoreBodies == { <<>>, <<D>>, <<D, S>>, <<S>>, <<Ch("ok"), La("ok"), E>>, <<Ch("ok"), La("ok"), E, S>>, <<MP, S>> }
 
+\* chunk-size numerals around the int boundary in every chunk position: first chunk, after an
+\* ordinary chunk, after a chunk whose data ends in CRLF / in CR; also those data shapes alone
+HugeFlags == {"h15f", "h16_7", "h16_8", "h16_fe", "h16_ff", "h17", "lz16"}
+HugeBodies == { <<Ch(f), La("ok"), E, S>> : f \in HugeFlags }
+         \cup { <<Ch(d), Ch(f), La("ok"), E, S>> : d \in {"ok", "crlfdata", "crdata"}, f \in HugeFlags }
+         \cup { <<Ch(d), La("ok"), E, S>> : d \in {"crlfdata", "crdata"} }
+HugeHdrLists == { <<It("TE", "chunked", "crlf")>>,
+                  <<It("CL", "exact", "crlf"), It("TE", "chunked", "crlf")>>,
+                  <<It("TE", "chunked", "crlf"), It("CL", "short", "crlf")>>,
+                  <<It("TE", "gzip_chunked", "crlf")>>,
+                  <<It("EXPECT", "100", "crlf"), It("TE", "chunked", "crlf")>> }
+
 HasTE(h) == \E i \in 1..Len(h) : h[i][1] = "TE"
 
 \* ---- first messages, addressed by index (no large sets of deep records are ever built)
 HdrSeq == SetToSeq(HdrLists)                        TEHdrSeq == SetToSeq({x \in HdrLists : HasTE(x)})
 BasicSeq == SetToSeq(BasicBodies)                   ChunkSeq == SetToSeq(ChunkBodies)
 CoreHdrSeq == SetToSeq(CoreHdrLists)                CoreBodySeq == SetToSeq(CoreBodies)
+HugeHdrSeq == SetToSeq(HugeHdrLists)                HugeBodySeq == SetToSeq(HugeBodies)
 MethAB == <<"GET", "POST">>
 VerC == <<"1.1", "1.0">>  MethC == <<"GET", "HEAD", "POST">>  HostC == <<"ok", "none", "dup">>
 LeC == <<"crlf", "lf", "lfend">>
@@ -77,17 +90,20 @@ Digit(k, r, d) == ((k \div Below(r, d - 1)) % r[d]) + 1
 RA == <<Len(BasicSeq), Len(HdrSeq), 2>>
 RB == <<Len(ChunkSeq), Len(TEHdrSeq), 1>>       \* chunk-detail bodies: POST only
 RC == <<Len(CoreBodySeq), Len(CoreHdrSeq), 3, 3, 3, 2>>
-NA == Below(RA, 3)  NB == Below(RB, 3)  NC == Below(RC, 6)
-NF == NA + NB + NC
+RD == <<Len(HugeBodySeq), Len(HugeHdrSeq), 2>>
+NA == Below(RA, 3)  NB == Below(RB, 3)  NC == Below(RC, 6)  ND == Below(RD, 3)
+NF == NA + NB + NC + ND
 
 First(k1) ==
   IF k1 <= NA THEN LET k == k1 - 1 IN
     Msg("1.1", MethAB[Digit(k, RA, 3)], "ok", "crlf", HdrSeq[Digit(k, RA, 2)], BasicSeq[Digit(k, RA, 1)])
   ELSE IF k1 <= NA + NB THEN LET k == k1 - NA - 1 IN
     Msg("1.1", "POST", "ok", "crlf", TEHdrSeq[Digit(k, RB, 2)], ChunkSeq[Digit(k, RB, 1)])
-  ELSE LET k == k1 - NA - NB - 1 IN
+  ELSE IF k1 <= NA + NB + NC THEN LET k == k1 - NA - NB - 1 IN
     Msg(VerC[Digit(k, RC, 6)], MethC[Digit(k, RC, 5)], HostC[Digit(k, RC, 4)], LeC[Digit(k, RC, 3)],
         CoreHdrSeq[Digit(k, RC, 2)], CoreBodySeq[Digit(k, RC, 1)])
+  ELSE LET k == k1 - NA - NB - NC - 1 IN
+    Msg("1.1", MethAB[Digit(k, RD, 3)], "ok", "crlf", HugeHdrSeq[Digit(k, RD, 2)], HugeBodySeq[Digit(k, RD, 1)])
 
 CanaryGet  == Msg("1.1", "GET", "ok", "crlf", <<>>, <<>>)
 CanaryPost == Msg("1.1", "POST", "ok", "crlf", <<It("CL", "exact", "crlf")>>, <<D>>)
